@@ -1165,6 +1165,7 @@ func (s *LoadingStore[K, V]) Get(ctx context.Context, key K) (V, error) {
 		var result setShardResult[K, V]
 		var entryCost int64
 		var entryExpire int64
+		var fromSecondary bool
 		loaded, err, _ := shard.group.Do(key, func() (Loaded[V], error) {
 			// load and store should be atomic
 			shard.mu.Lock()
@@ -1184,6 +1185,7 @@ func (s *LoadingStore[K, V]) Get(ctx context.Context, key K) (V, error) {
 					result = s.setShardWithoutLock(shard, h, key, vs, cost, expire, true)
 					entryCost = cost
 					entryExpire = expire
+					fromSecondary = true
 					return Loaded[V]{Value: vs}, nil
 				}
 			}
@@ -1205,7 +1207,7 @@ func (s *LoadingStore[K, V]) Get(ctx context.Context, key K) (V, error) {
 			return loaded, err
 		})
 		if result.entry != nil {
-			s.toPolicy(result, shard, h, entryCost, entryExpire, true)
+			s.toPolicy(result, shard, h, entryCost, entryExpire, fromSecondary)
 		}
 		return loaded.Value, err
 	} else {
